@@ -767,8 +767,8 @@ func cmdCheck(prop string, args []string) int {
 	for _, u := range total.undecided {
 		fmt.Println("UNDECIDED:", u)
 	}
-	fmt.Printf("%s %s: %d runs (%d in the -race binary), %d distinct schedules (%d non-trivial), %d decisions, %.1fs simulated, %.1fs wall, ext=%d, violations=%d known=%d\n",
-		prop, tier, total.runs, total.raceRuns, len(total.hashes), len(total.nontriv), total.steps, float64(total.simNs)/1e9, wall, total.ext, newViol, len(knownHit))
+	fmt.Printf("%s %s: %d runs (%d in the -race binary), %d distinct schedules (%d non-trivial), %d decisions, %.1fs simulated, %.1fs wall, ext=%d, race reports=%d (harness-internal %d), violations=%d known=%d\n",
+		prop, tier, total.runs, total.raceRuns, len(total.hashes), len(total.nontriv), total.steps, float64(total.simNs)/1e9, wall, total.ext, total.raceReports, total.harnessRaces, newViol, len(knownHit))
 	if exit == 0 && total.runs == 0 {
 		fmt.Println("UNDECIDED: no run was executed")
 		exit = 2
@@ -927,6 +927,17 @@ func absorb(wo *workerOut, race bool, prop string, tot *totals, start int) int {
 		}
 		if nHarness == len(parts2) || (nHarness > 0 && nHarness+nUnknown == len(parts2)) {
 			// both accesses are in harness code: not an access of the system under test; counted, not reported
+			tot.harnessRaces++
+			continue
+		}
+		accessor := false
+		for _, p := range parts2 {
+			if strings.HasPrefix(p, "harness:") && strings.Contains(p, ".Vsim") {
+				accessor = true
+			}
+		}
+		if accessor {
+			// an accessor reads vivid state at quiescence: ordered by the (hidden) scheduler by construction
 			tot.harnessRaces++
 			continue
 		}
